@@ -5,6 +5,7 @@ import RTA.Lemmas.ChainSound
 import RTA.Lemmas.ExecRefine
 import RTA.Lemmas.ExecRefineChain
 import RTA.Lemmas.ExecRunMeets
+import RTA.Lemmas.ExecEndToEnd
 import RTA.Spec.Ros2Exec
 /-! # C04 — the ECRTS'19 ROS 2 analyses are safe under reservation supply
 
@@ -338,6 +339,50 @@ theorem polling_point_safe_run (cbs : List Exec.Cb) (sigma : ℕ → Bool) (rels
   Exec.run_meets_of_sys cbs sigma rels H hidx hfin hcb i R
     (polling_point_safe_lts cbs sigma rels H i hidx hfin hcb sup hs hsbf a C hwf hex hC interf hwfi hexi
       hN hcost hint limit R hR) n
+
+/-- **C04, timer, end to end**: every hypothesis is on the INPUTS of the run (callback table,
+supply process, release pattern `rels` with `Exec.relCount rels k t d` = releases of `k` in
+`[t, t + d)` within the arrival curves), the conclusion on the completions reported by the
+executable `Exec.run` — no reference to a derived job system.  The interference handed to
+`rta_timer` is the aggregate of the higher-priority timers, the blocking bound `B` at least
+the cost − 1 of every other callback. -/
+theorem timer_safe_end_to_end (cbs : List Exec.Cb) (sigma : ℕ → Bool) (rels : ℕ → List ℕ) (H i : ℕ)
+    (hi : i < cbs.length) (hti : (cbs.getD i default).isTimer = true)
+    (hidx : ∀ t, ∀ i ∈ rels t, i < cbs.length) (hfin : ∀ t, H ≤ t → rels t = [])
+    (hcb : ∀ c ∈ cbs, 1 ≤ c.cost)
+    (hdist : ∀ k, k < cbs.length → k ≠ i → (cbs.getD k default).isTimer = true →
+      (cbs.getD k default).prio ≠ (cbs.getD i default).prio)
+    (sup : Supply) (hs : sup.WF) (hsbf : ∀ t d, sup.sbf d ≤ service sigma t d)
+    (arrs : List Arr) (hlen : arrs.length = cbs.length) (hwf : ∀ a ∈ arrs, a.WF ∧ a.Exact)
+    (hrel : ∀ k, k < cbs.length → ∀ t d, Exec.relCount rels k t d ≤ (arrs.getD k default).N d)
+    (B : ℕ)
+    (hB : ∀ k, k < cbs.length → k ≠ i →
+      ¬ ((cbs.getD k default).isTimer = true ∧ (cbs.getD k default).prio < (cbs.getD i default).prio) →
+      (cbs.getD k default).cost ≤ B + 1)
+    (limit R : ℕ)
+    (hR : rosTimer sup (.rbf (arrs.getD i default) (.scalar (cbs.getD i default).cost))
+      (.agg (((List.range cbs.length).filter fun k =>
+          (cbs.getD k default).isTimer && decide ((cbs.getD k default).prio < (cbs.getD i default).prio)).map
+        fun k => .rbf (arrs.getD k default) (.scalar (cbs.getD k default).cost))) B limit = .ok R)
+    (n : ℕ) :
+    ∀ o ∈ Exec.run cbs (fun _ => none) ((List.range n).map sigma) rels, o.1 = i → o.2.2 ≤ o.2.1 + R :=
+  Exec.timer_exec_sound cbs sigma rels H i hi hti hidx hfin hcb hdist sup hs hsbf arrs hlen hwf hrel B hB limit R hR n
+
+/-- **C04, polling-point callback, end to end** (interference: all other callbacks) -/
+theorem polling_point_safe_end_to_end (cbs : List Exec.Cb) (sigma : ℕ → Bool) (rels : ℕ → List ℕ) (H i : ℕ)
+    (hi : i < cbs.length)
+    (hidx : ∀ t, ∀ i ∈ rels t, i < cbs.length) (hfin : ∀ t, H ≤ t → rels t = [])
+    (hcb : ∀ c ∈ cbs, 1 ≤ c.cost)
+    (sup : Supply) (hs : sup.WF) (hsbf : ∀ t d, sup.sbf d ≤ service sigma t d)
+    (arrs : List Arr) (hlen : arrs.length = cbs.length) (hwf : ∀ a ∈ arrs, a.WF ∧ a.Exact)
+    (hrel : ∀ k, k < cbs.length → ∀ t d, Exec.relCount rels k t d ≤ (arrs.getD k default).N d)
+    (limit R : ℕ)
+    (hR : rosPollingPoint sup (.rbf (arrs.getD i default) (.scalar (cbs.getD i default).cost))
+      (.agg (((List.range cbs.length).filter fun k => decide (k ≠ i)).map
+        fun k => .rbf (arrs.getD k default) (.scalar (cbs.getD k default).cost))) limit = .ok R)
+    (n : ℕ) :
+    ∀ o ∈ Exec.run cbs (fun _ => none) ((List.range n).map sigma) rels, o.1 = i → o.2.2 ≤ o.2.1 + R :=
+  Exec.pollingPoint_exec_sound cbs sigma rels H i hi hidx hfin hcb sup hs hsbf arrs hlen hwf hrel limit R hR n
 
 /-- the claim for the timer analysis phrased over the executor transition system itself
 in terms of the completions reported by `Exec.run` (an earlier phrasing, kept for reference:
